@@ -172,16 +172,34 @@ def run_slice(job: dict) -> dict:
                     warnings.simplefilter("ignore")
                     world = mosaik.World({"S": {"python": "vlab.sims:ScriptedSim"}}, skip_greetings=True)
                     try:
-                        spec = {"type": typ, "entities": ["e0"], "ins": {}, "outs": {},
+                        # the simulator announces API 3.0, 2.2 or 2.0 (old ones are wrapped in adapters; a declared
+                        # type must survive that)
+                        apiv = ("3.0", "2.2", "2.0")[(k // W // job["world_every"]) % 3]
+                        C["world_start_api_" + apiv] += 1
+                        spec = {"type": typ, "entities": ["e0"], "ins": {}, "outs": {}, "api_version": apiv,
                                 "model_desc": dict(desc, public=True, params=[])}
+                        # before: another start from the SAME sim_config entry whose init() returns another
+                        # description (a simulator configured by its init parameters) of the same type
+                        other = {"attrs": sorted(full - {FRESH}), "any_inputs": False}
+                        if typ == "hybrid":
+                            other["trigger"] = sorted(full - {FRESH})[:1]
+                        f0 = world.start("S", sim_id="W", spec=dict(spec, model_desc=dict(other, public=True, params=[])))
+                        exp0 = expected(other, typ, full)
+                        g0 = [members(s_, full) for s_ in (f0.M.measurement_inputs, f0.M.event_inputs,
+                                                            f0.M.measurement_outputs, f0.M.event_outputs)]
+                        if g0 != list(exp0):
+                            viol("world_start_classification_differs", desc=other, type=typ, api_version=apiv,
+                                 expected=[sorted(s_) for s_ in exp0], got=[sorted(s_) for s_ in g0])
                         fa = world.start("S", sim_id="X", spec=spec)
                         fb = world.start("S", sim_id="Y", spec=spec)
                         C["world_start_checked"] += 1
+                        C["world_start_after_other_description_from_same_entry"] += 1
                         mm = fa.M
                         gw = [members(s, full) for s in (mm.measurement_inputs, mm.event_inputs,
                                                           mm.measurement_outputs, mm.event_outputs)]
                         if gw != list(exp):
-                            viol("world_start_classification_differs", desc=desc, type=typ,
+                            viol("world_start_classification_differs", desc=desc, type=typ, api_version=apiv,
+                                 after_other_description_from_same_entry=True,
                                  expected=[sorted(s) for s in exp], got=[sorted(s) for s in gw])
                         ea, eb = fa.M(), fb.M()
                         for sa in sorted(full):
@@ -220,6 +238,11 @@ def run_slice(job: dict) -> dict:
                 warnings.simplefilter("ignore")
                 world = mosaik.World({"S": {"python": "vlab.sims:ScriptedSim"}}, skip_greetings=True)
                 try:
+                    if (k // W // 23) % 2:
+                        # a consistent description from the same sim_config entry has been started before
+                        world.start("S", sim_id="W", spec={"type": typ, "entities": ["e0"], "ins": {}, "outs": {},
+                                                           "model_desc": {"attrs": [], "public": True, "params": []}})
+                        C["world_start_rejections_after_a_consistent_start"] += 1
                     world.start("S", sim_id="X", spec={"type": typ, "entities": ["e0"], "ins": {}, "outs": {},
                                                        "model_desc": dict(desc, public=True, params=[])})
                     viol("world_start_accepted_inconsistent", desc=desc, type=typ)
@@ -289,6 +312,32 @@ def replay(rep: dict) -> List[dict]:
         exp = expected(v["desc"], v["type"], full)
     except Reject as r:
         exp = r
+    if v.get("kind", "").startswith("world_start"):
+        import mosaik
+        import warnings
+        from ..build import setup_logging
+        setup_logging()
+        typ = v["type"]
+        with warnings.catch_warnings():
+            warnings.simplefilter("ignore")
+            world = mosaik.World({"S": {"python": "vlab.sims:ScriptedSim"}}, skip_greetings=True)
+            try:
+                base = {"type": typ, "entities": ["e0"], "ins": {}, "outs": {}, "api_version": v.get("api_version", "3.0")}
+                other = {"attrs": ["a", "b", "c"], "any_inputs": False, "public": True, "params": []}
+                if typ == "hybrid":
+                    other["trigger"] = ["a"]
+                world.start("S", sim_id="W", spec=dict(base, model_desc=other))
+                try:
+                    f = world.start("S", sim_id="X", spec=dict(base, model_desc=dict(v["desc"], public=True, params=[])))
+                except ValueError:
+                    return [] if isinstance(exp, Reject) else [v]
+                if isinstance(exp, Reject):
+                    return [v]
+                gw = [members(s_, full) for s_ in (f.M.measurement_inputs, f.M.event_inputs,
+                                                    f.M.measurement_outputs, f.M.event_outputs)]
+                return [v] if gw != list(exp) else []
+            finally:
+                world.shutdown()
     try:
         got = parse_attrs(dict(v["desc"]), v["type"])
     except ValueError:
